@@ -665,4 +665,74 @@ theorem sortL_refines (cmp : Nat → Nat → Int) (key : Nat → Int) (hck : ∀
       refine ⟨m, l, by simp only [sortL, hc, if_false], rfl, ?_, fun _ _ _ => ⟨rfl, rfl⟩⟩
       rw [Cstl.SList.msort_short key xs hn]; exact h
 
+/-- **C12, sort at link level.**  The conclusion of `sort_spec` holds for the
+link-level model of the C function: the result represents, in both
+directions, an ordered permutation of the same nodes; only the list's nodes
+and the temporary heads are written. -/
+theorem sortL_spec (cmp : Nat → Nat → Int) (key : Nat → Int) (hck : ∀ x y, cmp x y ≤ 0 ↔ key x ≤ key y)
+    (tmp : Nat → Nat × Nat) (d : Nat) {m : M2} {l : Hd} {xs : List Nat}
+    (h : IsDL m l xs) (hfr : Fresh tmp d (l.h :: xs)) :
+    ∃ m' l', sortL cmp tmp (xs.length + 1) d m l = some (m', l') ∧
+      let ys := if l.size > 1 then msort key xs.length xs else xs
+      IsDL m' l' ys ∧ ys.Perm xs ∧ SortedBy key ys ∧ l'.h = l.h
+      ∧ ∀ a, a ∉ l.h :: xs → ¬ Scratch tmp d a → m'.nx a = m.nx a ∧ m'.pv a = m.pv a := by
+  obtain ⟨m', l', e, hh, hs, fr⟩ := sortL_refines cmp key hck tmp (xs.length + 1) d h hfr (by omega)
+  refine ⟨m', l', e, ?_⟩
+  intro ys
+  have hys : ys = msort key xs.length xs := by
+    by_cases hc : l.size > 1
+    · simp [ys, hc]
+    · have : xs.length ≤ 1 := by rw [← h.size]; omega
+      simp [ys, hc, Cstl.SList.msort_short key xs this]
+  rw [hys]
+  exact ⟨hs, Cstl.SList.msort_perm key _ xs, Cstl.SList.msort_sorted key _ xs (Nat.le_refl _), hh, fr⟩
+
+/-- **link-level sort = sequence-level model.**  The link-level sort ends with
+the same header as the sequence-level model `sort` of `Model.lean` and with
+the same two link memories everywhere except on the temporary heads. -/
+theorem sortL_eq_sort (cmp : Nat → Nat → Int) (key : Nat → Int) (hck : ∀ x y, cmp x y ≤ 0 ↔ key x ≤ key y)
+    (tmp : Nat → Nat × Nat) (d : Nat) {m : M2} {l : Hd} {xs : List Nat}
+    (h : IsDL m l xs) (hfr : Fresh tmp d (l.h :: xs)) :
+    ∃ m' l', sortL cmp tmp (xs.length + 1) d m l = some (m', l') ∧ l' = (sort m l key).2
+      ∧ ∀ a, ¬ Scratch tmp d a → m'.nx a = (sort m l key).1.nx a ∧ m'.pv a = (sort m l key).1.pv a := by
+  obtain ⟨m', l', e, s1, _, _, hh, fr⟩ := sortL_spec cmp key hck tmp d h hfr
+  obtain ⟨t1, tp, _, tfr⟩ := sort_spec h key
+  have hh2 : (sort m l key).2.h = l.h := by simp only [sort]; split <;> rfl
+  refine ⟨m', l', e, ?_, ?_⟩
+  · have c1 := s1.size; have c2 := t1.size
+    cases hl' : l' with
+    | mk h1 c1' =>
+      cases hs : (sort m l key).2 with
+      | mk h2 c2' =>
+        rw [hl'] at c1 hh; rw [hs] at c2 hh2
+        simp only at c1 hh c2 hh2
+        rw [hh, hh2, c1, c2]
+  · intro a ha
+    by_cases hm : a ∈ l.h :: xs
+    · have p1 := s1.fwd; have p2 := t1.fwd; have q1 := s1.bwd; have q2 := t1.bwd
+      rw [hh] at p1 q1; rw [hh2] at p2 q2
+      have hm' : a ∈ l.h :: (if l.size > 1 then msort key xs.length xs else xs) := by
+        rcases List.mem_cons.mp hm with e | hm
+        · simp [e]
+        · exact List.mem_cons_of_mem _ (tp.mem_iff.mpr hm)
+      refine ⟨Cstl.SList.Seg_unique p1 p2 a hm', Cstl.SList.Seg_unique q1 q2 a ?_⟩
+      rcases List.mem_cons.mp hm' with e | hm'
+      · simp [e]
+      · exact List.mem_cons_of_mem _ (List.mem_reverse.mpr hm')
+    · rw [(fr a hm ha).1, (fr a hm ha).2, (tfr a hm).1, (tfr a hm).2]
+      exact ⟨rfl, rfl⟩
+
+/-- non-vacuity, and the model runs: the four-element list `[12, 10, 13, 11]`
+(keys = addresses) is sorted by the link-level function; both walks agree -/
+example :
+    let s0 := init { nx := fun _ => 0, pv := fun _ => 0 } 1
+    let s1 := pushBack s0.1 s0.2 12
+    let s2 := pushBack s1.1 s1.2 10
+    let s3 := pushBack s2.1 s2.2 13
+    let s4 := pushBack s3.1 s3.2 11
+    (sortL (fun a b => (a : Int) - b) (fun e => (100 + 2 * e, 101 + 2 * e)) 5 0 s4.1 s4.2).map
+        (fun r => (walk r.1.nx r.2.h 5 r.2.h, walk r.1.pv r.2.h 5 r.2.h, r.2.size))
+      = some ([10, 11, 12, 13], [13, 12, 11, 10], 4) := by
+  decide
+
 end Cstl.DList
